@@ -1390,7 +1390,11 @@ def replay_case(case):
         if case['kind'] == 'dispatch-write':
             return replay_write(case, tmpdir)
         desc = dict(case['subject'], name='replay.nitf')
-        subj = build_subject(desc, tmpdir)
+        try:
+            subj = build_subject(desc, tmpdir)
+        except Exception as e:
+            print(f'building a {desc["kind"]} reader over {len(desc["images"])} images raised {type(e).__name__}: {e}')
+            return 1
         try:
             req = case.get('req')
             if req is None:
